@@ -30,6 +30,21 @@ CLAIMS = {
   "note": "Equality with recomputation for every history follows from these invariants by induction on the history; the induction itself is not mechanised and histories are not enumerated. Float rounding and third-party containers are trusted.",
   "technique": "finite-domain abstract interpretation of Add over (count-before × operation) + symbolic inverse-update comparison",
  },
+ "C03": {
+  "text": "Both group-by nodes are abstractly interpreted per record: a NULL aggregate input touches neither the aggregate nor its set size, a non-NULL input moves AggregatedSetSize[i] by ±1 and calls Aggregates[i].Add(record.Retraction, input); the per-key record count moves by ±1 and the group is dropped exactly at 0 (count-before ∈ {0,1,2,≥3} × {add, retract}); both output paths call Trigger() only with a positive set size and put NULL otherwise; every aggregate descriptor's Trigger constructs its declared OutputType; Min/Max/Array read the right end / ascending order with ascending comparators.",
+  "note": "Does not decide numeric results per group nor overload resolution in logical/group_by.go. One row per distinct key (incl. NULL) relies on C09 (Compare/Hash agreement). Trusted: go/types, engine/absint.",
+  "technique": "finite-domain abstract interpretation of the per-record update and output loops + descriptor/constructor table check",
+ },
+ "C16": {
+  "text": "Conditions that make the end-of-stream result independent of triggers, decided on all paths: Run signals EndOfStreamReached and triggers once more after a successful source run; every Poll flushes all remaining keys at end of stream and MultiTrigger forwards to every child; firing a key retracts the previously sent row before emitting and remembering the new one (four cases of group present × previous row present); both group-by nodes perform the same aggregate updates (shared with C03).",
+  "note": "The equality of consolidated outputs for every history is not enumerated; it follows from these conditions plus C14. Trusted: go/types, engine/absint.",
+  "technique": "finite-domain abstract interpretation with event-order checks",
+ },
+ "C17": {
+  "text": "CountingTrigger.KeyReceived is interpreted for count-before × triggerAfter (k<n≤3): fires iff the incremented count equals n and resets in that branch; WatermarkTrigger.Poll's walk fires exactly the keys with time ≤ watermark, stops at the first later key and deletes what fired; EndOfStreamTrigger fires nothing before and everything at end of stream; CountingTrigger.Poll hands out and clears its pending list; the group-by's metadata callback runs WatermarkReceived → trigger → metaSend in that order; MultiTrigger forwards every call to every child without early exit; watermarkTriggerKey.Less orders by time then key.",
+  "note": "The clause 'no key beyond W has been emitted unless another trigger fired it' quantifies over histories and is not decided. Trusted: go/types, engine/absint, google/btree.",
+  "technique": "finite-domain abstract interpretation with event-order checks",
+ },
 }
 
 NOT_APPLICABLE = {
